@@ -814,6 +814,9 @@ class TextEngine:
             op["text"] = self._heading_text(rng, n)
             if rng.chance(0.2, "hspan"):
                 op["span"] = True
+            if rng.chance(0.25, "hmark"):
+                # marks that carry no text of their own: a reference / bookmark range around a word, or a point mark
+                op["mark"] = rng.choice(["refrange", "refpoint", "bookrange", "bookpoint"], "hmarkkind")
             if what == "insert_heading":
                 op["at"] = rng.randint(0, H, "hat")
         elif what in ("delete_heading", "retitle", "relevel"):
@@ -886,6 +889,17 @@ class TextEngine:
                 h = Header(op["level"], op["text"])
                 if op.get("span"):
                     h.set_span("T1", regex=r"\w+")
+                mk = op.get("mark")
+                if mk == "refrange":
+                    h.set_reference_mark(f"ref{op['n']}", content=r"\w+")
+                elif mk == "refpoint":
+                    h.set_reference_mark(f"ref{op['n']}", position=1)
+                elif mk == "bookrange":
+                    h.set_bookmark(f"bk{op['n']}", content=r"\w+")
+                elif mk == "bookpoint":
+                    h.set_bookmark(f"bk{op['n']}", position=1)
+                if mk:
+                    feats.append("heading_with_" + mk)
                 text = xmlref.raw_text(lx(h))
                 if name == "add_heading":
                     body.append(h)
